@@ -7,6 +7,7 @@ package main
 // are decided here and nothing else is claimed.
 
 import (
+	"fmt"
 	"go/constant"
 	"go/token"
 	"go/types"
@@ -24,7 +25,7 @@ func init() {
 			"(sticky, balance test) isBalanced examines every member: the loops that look for a partition a lighter member could take from a heavier one are left only when they are exhausted or with the verdict `false` — an early `break` declares the assignment balanced without having looked at the remaining members (C13.balance-test). " +
 			"Shared with C08: the eligibility guards of the three strategies (C08.eligible) — a remembered partition that no longer exists, kept in a member's working list, counts towards its size and can never be moved, so the plan stays unbalanced. " +
 			"NOT decided: that range sizes / round-robin totals differ by at most one (floating-point and modular arithmetic), balance in Kafka's sense, the fixed point of re-planning, keep-on-leave and no-shuffle-on-join — these are relations over the algorithm's outputs for all inputs and need execution or a solver.",
-		Rules: []func(*Ctx){c13Range, c13RoundRobin, c13SwapGuard, c13Generation, c13BalanceTest, c08Rules},
+		Rules: []func(*Ctx){c13Range, c13RoundRobin, c13SwapGuard, c13Generation, c13BalanceTest, c08Rules, c08ErrLost, c13AllClaims, c13FreshFlag},
 	})
 }
 
@@ -702,9 +703,11 @@ func c13BalanceTest(c *Ctx) {
 // ---------------------------------------------------------------- the sticky "hand back" move (F22)
 
 // stickyMoveShapes recognises, inside stickyBalanceStrategy.reassignPartition, the values
-//   consumer := currentPartitionConsumer[partition]
-//   chosen   := movements.getTheActualPartitionToBeMoved(partition, consumer, newConsumer)
-//   owner    := currentPartitionConsumer[chosen]
+//
+//	consumer := currentPartitionConsumer[partition]
+//	chosen   := movements.getTheActualPartitionToBeMoved(partition, consumer, newConsumer)
+//	owner    := currentPartitionConsumer[chosen]
+//
 // by their construction from the function's parameters (whatever the locals are called).
 type stickyMoveShapes struct {
 	fn                      *ssa.Function
@@ -755,4 +758,98 @@ func (m *stickyMoveShapes) isHandBack(p *Program, s Item) bool {
 	}
 	g, _ := WholeFn(m.fn).Guarded(s, Cmp{token.NEQ, m.owner, m.consumer})
 	return g
+}
+
+// C13.all-claims: every claim of every member's user data is looked at.
+func c13AllClaims(c *Ctx) {
+	rule := "C13.all-claims"
+	c.Doc(rule, "prepopulateCurrentAssignments: each of its loops (over the members, over one member's claimed partitions, over the partitions' claimants) is left only when its range is exhausted, or by returning an error — no `break`: a record that is skipped (a partition claimed twice for one generation) must not take the member's remaining claims with it, or undisputed partitions lose their owner and move although nothing about the group changed")
+	c.Floor(rule, 3)
+	fn := c.NeedFn(rule, "prepopulateCurrentAssignments")
+	if fn == nil {
+		return
+	}
+	fi := Info(fn)
+	if len(fi.Loops) < 3 {
+		c.Unresolved(rule, fmt.Sprintf("loops of prepopulateCurrentAssignments (found %d)", len(fi.Loops)))
+	}
+	for i, l := range fi.Loops {
+		var bad *ssa.BasicBlock
+		for b := range l.Blocks {
+			if b == l.Head {
+				continue
+			}
+			for _, succ := range b.Succs {
+				if l.Blocks[succ] {
+					continue
+				}
+				// leaving the loop from its body: fine only if nothing but an error return follows
+				if it, _ := WholeFn(fn).From(Pt{succ, 0}).Reach(ReturnNilErr(), nil); !it.IsZero() {
+					bad = b
+				}
+			}
+		}
+		var at ssa.Instruction
+		if bad != nil {
+			at = lastInstr(bad)
+		} else if len(l.Head.Instrs) > 0 {
+			at = l.Head.Instrs[0]
+		}
+		c.Check(bad == nil, rule, fn, fmt.Sprintf("loop#%d-runs-to-the-end", i), at, "the loop is left only at the end of its range (or with an error)", "a loop of prepopulateCurrentAssignments can be left early without an error (a break): the remaining claims of that member (or the remaining members) are dropped, their partitions count as unowned and are handed to whoever is lightest — partitions move between members although members, subscriptions and partitions are unchanged", nil)
+	}
+}
+
+// C13.fresh-flag: "no existing assignment" is decided from the current owners, not from anything else.
+func c13FreshFlag(c *Ctx) {
+	p := c.P
+	rule := "C13.fresh-flag"
+	c.Doc(rule, "stickyBalanceStrategy.Plan: the flag handed to sortPartitions as isFreshAssignment is true exactly where len(currentAssignment) == 0 was established, currentAssignment being the first result of prepopulateCurrentAssignments (the owners claimed in user data).  With the flag wrongly true, partitions are sorted by name instead of heaviest-owner-first, and on a join partitions move between old members")
+	c.Floor(rule, 1)
+	fn := c.NeedFn(rule, "stickyBalanceStrategy.Plan")
+	sp := p.Fn("sortPartitions")
+	if fn == nil || sp == nil {
+		if sp == nil {
+			c.Unresolved(rule, "sortPartitions")
+		}
+		return
+	}
+	calls := Info(fn).Find(p.CallTo("sortPartitions"))
+	if len(calls) == 0 {
+		c.Unresolved(rule, "call of sortPartitions in Plan")
+		return
+	}
+	iFlag := paramIdxByName(sp, "isFreshAssignment", 2)
+	owners := p.ResultOf(0, "prepopulateCurrentAssignments")
+	empty := Cmp{token.EQL, LenOf(owners), ConstInt(0)}
+	nonEmpty := AnyOf{Cmp{token.NEQ, LenOf(owners), ConstInt(0)}, Cmp{token.GTR, LenOf(owners), ConstInt(0)}}
+	reg := WholeFn(fn)
+	for _, s := range calls {
+		a := callArgs(s)
+		if iFlag >= len(a) {
+			continue
+		}
+		v := a[iFlag]
+		ph, isPhi := v.(*ssa.Phi)
+		if !isPhi {
+			// the comparison itself
+			bo, ok := v.(*ssa.BinOp)
+			c.Check(ok && empty.holds(bo, false), rule, fn, "flag-is-no-current-owners", s.Instr(), "isFreshAssignment is len(currentAssignment) == 0", "the value passed as isFreshAssignment ("+describe(v)+") is not the test len(currentAssignment) == 0 on the owners returned by prepopulateCurrentAssignments", nil)
+			continue
+		}
+		for i, e := range ph.Edges {
+			pred := ph.Block().Preds[i]
+			k, isC := e.(*ssa.Const)
+			if !isC {
+				c.Fail(rule, fn, "flag-is-no-current-owners", s.Instr(), "isFreshAssignment is merged from a non-constant", nil)
+				continue
+			}
+			want := Pred(nonEmpty)
+			name := "false-where-owners-exist"
+			if ConstBool(true)(k) {
+				want, name = empty, "true-where-no-owners"
+			}
+			ok := guardedAt(reg, pred, ph.Block(), want)
+			c.Check(ok, rule, fn, name, s.Instr(), "isFreshAssignment is "+k.String()+" exactly under the matching test of len(currentAssignment)", "isFreshAssignment is set to "+k.String()+" on a path that has not established the matching test of len(currentAssignment) (the owners returned by prepopulateCurrentAssignments): a re-plan with existing owners is treated as a fresh assignment (or the reverse), partitions are sorted in the wrong order and move between old members when somebody joins", nil)
+		}
+	}
 }
